@@ -22,7 +22,7 @@ META = {
     },
     "exhaustive": {"quick": False, "thorough": False},
     "assumptions": ["minima are recomputed by the reference evaluator from the returned solutions (the package's cost() is not trusted)"],
-    "timeout": {"quick": 900, "thorough": 7200},
+    "timeout": {"quick": 420, "thorough": 7200},
 }
 
 
